@@ -9,7 +9,9 @@ import Driver.QuadtreeCmd
 import Driver.EstimatorCmd
 import Driver.EstimatorGenCmd
 import Driver.ParamCmd
+import Driver.ParamGenCmd
 import Driver.EstimCmd
+import Driver.EstimGenCmd
 import Driver.AsmCmd
 import Driver.HMeshCmd
 import Driver.InitPotCmd
@@ -40,7 +42,9 @@ def dispatch (st : St) (line : String) : St × String :=
   | "ee" :: _ => let r := eeCmd st.mesh args; ({ st with mesh := r.1 }, r.2)
   | "gee" :: _ => (st, geeCmd st.mesh args)
   | "param" :: _ => (st, paramCmd args)
+  | "gparam" :: _ => (st, paramGenCmd args)
   | "est" :: _ => (st, estimCmd args)
+  | "gest" :: _ => (st, estimGenCmd args)
   | "asm" :: _ => (st, asmCmd args)
   | "mesh" :: _ => let r := meshCmd st.mesh args; ({ st with mesh := r.1 }, r.2)
   | "gmesh" :: _ => let r := gmeshCmd st.gmesh args; ({ st with gmesh := r.1 }, r.2)
